@@ -1,4 +1,5 @@
 // C15 — diagnostics point at the offending source text.
+use crate::model::surface::S;
 use crate::{
     bind::{self, Front, guard},
     enumerate::{Sentences, Seqs, name_simple},
@@ -124,20 +125,14 @@ const LAYOUTS: usize = 9;
 
 // Does the diagnostic's (first) listing mark exactly [start, end)? `loose`: may the marks extend to
 // parentheses that enclose nothing but the target?
-fn check_points_at(text: &str, message: &str, start: usize, end: usize, what: &str, sub: &str) -> bool {
+// Does the diagnostic's (first) listing mark exactly [start, end) — or that range widened over
+// parentheses that enclose nothing else?
+fn points_at(text: &str, message: &str, start: usize, end: usize) -> Result<(), String> {
     let (head, listings) = split_message(message);
     let Some(l) = listings.first() else {
-        violation(sub, text, &format!("a listing marking {:?}", &text[start..end]), &format!("no listing: {message:?}"));
-        return false;
+        return Err(format!("no listing: {message:?}"));
     };
-    let shown = match read_listing(l) {
-        Ok(s) => s,
-        Err(m) => {
-            violation(sub, text, "a well-formed listing", &format!("{m}: {l:?}"));
-            return false;
-        }
-    };
-    // candidates: the exact range, or the range widened over parentheses that enclose only it
+    let shown = read_listing(l).map_err(|m| format!("{m}: {l:?}"))?;
     let mut cands = vec![(start, end)];
     let (mut s, mut e) = (start, end);
     loop {
@@ -154,12 +149,21 @@ fn check_points_at(text: &str, message: &str, start: usize, end: usize, what: &s
     let mut last_err = String::new();
     for (s, e) in cands {
         match compare(&shown, &expected_listing(text, s, e)) {
-            Ok(()) => return true,
+            Ok(()) => return Ok(()),
             Err(m) => last_err = m,
         }
     }
-    violation(sub, text, &format!("{what}: a listing marking exactly {:?} at bytes {start}..{end}", &text[start..end]), &format!("{head} :: {last_err} :: {l:?}"));
-    false
+    Err(format!("{head} :: {last_err} :: {l:?}"))
+}
+
+fn check_points_at(text: &str, message: &str, start: usize, end: usize, what: &str, sub: &str) -> bool {
+    match points_at(text, message, start, end) {
+        Ok(()) => true,
+        Err(m) => {
+            violation(sub, text, &format!("{what}: a listing marking exactly {:?} at bytes {start}..{end}", &text[start..end]), &m);
+            false
+        }
+    }
 }
 
 // (c1) unbound names, (c2) re-bound names, (c3) stray symbols, on every sentence and every layout.
@@ -256,6 +260,127 @@ fn faults_sweep(name: &str, g: Grammar, min_len: usize, max_len: usize) -> Sweep
             let tree = s2.borrow_mut().tree(case / LAYOUTS as u64);
             format!("layout {} of: {}", case % LAYOUTS as u64, tok::layout(&name_simple(&g2, &tree)).0)
         },
+    )
+}
+
+// (c4) type faults: into every position of a well-typed program whose expected class is fixed by its
+// context (operand of arithmetic / comparison / negation: int; condition: bool; annotation: type;
+// applicand: function) an atom of a wrong class with a unique spelling is planted; some diagnostic
+// must mark exactly the planted text.
+const UNIQ_INT: &str = "424242";
+
+fn uniq_lam() -> S {
+    S::Lam { name: "w9".to_owned(), implicit: false, ann: Some(surface::bx(S::Int)), body: surface::bx(S::Var("w9".to_owned())) }
+}
+
+fn plantings(s: &S) -> Vec<(S, &'static str)> {
+    use crate::model::mterm::Op;
+    use surface::bx;
+    // rewrite exactly one position; `slot` says what the position expects
+    #[derive(Clone, Copy, PartialEq)]
+    enum Slot {
+        Int,
+        Bool,
+        Type,
+        Function,
+        Other,
+    }
+    fn go(s: &S, slot: Slot) -> Vec<(S, &'static str)> {
+        let mut out = vec![];
+        match slot {
+            Slot::Int | Slot::Bool => out.push((uniq_lam(), "( w9 : int ) => w9")),
+            _ => {}
+        }
+        match slot {
+            Slot::Bool | Slot::Type | Slot::Function => out.push((S::Lit(UNIQ_INT.to_owned()), UNIQ_INT)),
+            _ => {}
+        }
+        let mut with = |make: &dyn Fn(S) -> S, child: &S, slot: Slot| {
+            for (c, mark) in go(child, slot) {
+                out.push((make(c), mark));
+            }
+        };
+        match s {
+            S::Lam { name, implicit, ann, body } => {
+                if let Some(a) = ann {
+                    with(&|c| S::Lam { name: name.clone(), implicit: *implicit, ann: Some(bx(c)), body: body.clone() }, a, Slot::Type);
+                }
+                with(&|c| S::Lam { name: name.clone(), implicit: *implicit, ann: ann.clone(), body: bx(c) }, body, Slot::Other);
+            }
+            S::App(a, b) => {
+                with(&|c| S::App(bx(c), b.clone()), a, Slot::Function);
+                with(&|c| S::App(a.clone(), bx(c)), b, Slot::Other);
+            }
+            S::Bin(o, a, b) => {
+                with(&|c| S::Bin(*o, bx(c), b.clone()), a, Slot::Int);
+                with(&|c| S::Bin(*o, a.clone(), bx(c)), b, Slot::Int);
+            }
+            S::Let { name, ann, def, body } => {
+                if let Some(a) = ann {
+                    with(&|c| S::Let { name: name.clone(), ann: Some(bx(c)), def: def.clone(), body: body.clone() }, a, Slot::Type);
+                }
+                with(&|c| S::Let { name: name.clone(), ann: ann.clone(), def: bx(c), body: body.clone() }, def, Slot::Other);
+                with(&|c| S::Let { name: name.clone(), ann: ann.clone(), def: def.clone(), body: bx(c) }, body, Slot::Other);
+            }
+            S::Neg(a) => with(&|c| S::Neg(bx(c)), a, Slot::Int),
+            S::Paren(a) => with(&|c| S::Paren(bx(c)), a, slot),
+            S::If(a, b, c3) => {
+                with(&|c| S::If(bx(c), b.clone(), c3.clone()), a, Slot::Bool);
+                with(&|c| S::If(a.clone(), bx(c), c3.clone()), b, Slot::Other);
+                with(&|c| S::If(a.clone(), b.clone(), bx(c)), c3, Slot::Other);
+            }
+            _ => {}
+        }
+        let _ = Op::Add;
+        out
+    }
+    go(s, Slot::Other)
+}
+
+fn type_faults_sweep(tier: Tier) -> Sweep {
+    let progs = crate::props::sem::typed_programs(tier.pick(5, 6));
+    let p2 = progs.clone();
+    Sweep::new(
+        "type faults planted at every position whose expected class is fixed by its context",
+        progs.len() as u64,
+        move |idx| {
+            let (_, s) = &progs[idx as usize];
+            for (planted, mark) in plantings(s) {
+                for prefix in ["", "ééé = 1 ; "] {
+                    let text = format!("{prefix}{}", surface::print(&planted));
+                    let Some(start) = text.find(mark) else { continue };
+                    if text[start + mark.len()..].contains(mark) {
+                        continue; // the spelling must be unique in the text
+                    }
+                    let end = start + mark.len();
+                    count!("evaluations");
+                    count!("type_fault_plantings");
+                    crate::props::sem::front_end(&text, |f| match f {
+                        crate::props::sem::FrontEnd::Rejected { stage: "type_check", messages, .. } => {
+                            let mut last = String::new();
+                            for m in &messages {
+                                match points_at(&text, m, start, end) {
+                                    Ok(()) => {
+                                        count!("type_fault_ok");
+                                        count!("nontrivial");
+                                        return;
+                                    }
+                                    Err(e) => last = e,
+                                }
+                            }
+                            // the planted atom sits where the context fixes its class, so a diagnostic for it
+                            // is owed; but the checker may legitimately report the mismatch one level up
+                            // when the planted atom changes the type of an enclosing definition
+                            violation("type-fault-range", &text, &format!("some diagnostic marking exactly the planted {mark:?} at bytes {start}..{end}"), &format!("{} diagnostics, none points there; last: {last}", messages.len()));
+                        }
+                        crate::props::sem::FrontEnd::Rejected { .. } => count!("planting_rejected_earlier"),
+                        crate::props::sem::FrontEnd::Accepted(_) => count!("planting_accepted"),
+                        crate::props::sem::FrontEnd::Panic { message, .. } => violation("panic", &text, "diagnostics", &message),
+                    });
+                }
+            }
+        },
+        move |idx| format!("type faults planted into: {}", surface::print(&p2[idx as usize].1)),
     )
 }
 
@@ -423,6 +548,7 @@ impl Prop for C15 {
             faults_sweep("planted faults x layouts, class alphabet", class.clone(), tier.pick(5, 6), tier.pick(6, 7)),
             ranges_sweep("node ranges, full alphabet", g.clone(), 1, tier.pick(5, 6)),
             ranges_sweep("node ranges, class alphabet", class, 6, tier.pick(7, 8)),
+            type_faults_sweep(tier),
         ];
         for (name, sg) in c07::slices(&g) {
             if name == "binders" || name == "let-groups" {
@@ -437,10 +563,10 @@ impl Prop for C15 {
     fn evidence(&self, tier: Tier) -> EvidenceSpec {
         EvidenceSpec {
             level: "exploration",
-            rule: "(a) error::listing on every text up to 5/6 fragments over {a, é, 4-byte letter, space, tab, LF, CRLF} and every range on character boundaries, compared with the specification (lines intersecting the range, 1-based numbers, marked character columns); (b) for every node of the parse result of every sentence up to the bounds, the node's source range is inside the file and its text re-parses to that node; (c) every sentence up to the bounds in 9 layouts (fault on line 1 / 2 / 9 / 10 so that the gutter widens, after a non-ASCII comment, after 2- and 4-byte identifiers on the same line, broken over lines wherever the line-break rule allows, CRLF+tab continuation lines) with planted faults: every use unbound, every binder re-bound to an enclosing binder's name (all binder forms), a stray symbol ($, a combining mark, a 4-byte emoji) in every gap; the diagnostic's listing must mark exactly the planted identifier / symbol (or the parentheses that enclose nothing else). evaluations = texts + sentences x layouts".to_owned(),
+            rule: "(a) error::listing on every text up to 5/6 fragments over {a, é, 4-byte letter, space, tab, LF, CRLF} and every range on character boundaries, compared with the specification (lines intersecting the range, 1-based numbers, marked character columns); (b) for every node of the parse result of every sentence up to the bounds, the node's source range is inside the file and its text re-parses to that node; (c) every sentence up to the bounds in 9 layouts (fault on line 1 / 2 / 9 / 10 so that the gutter widens, after a non-ASCII comment, after 2- and 4-byte identifiers on the same line, broken over lines wherever the line-break rule allows, CRLF+tab continuation lines) with planted faults: every use unbound, every binder re-bound to an enclosing binder's name (all binder forms), a stray symbol ($, a combining mark, a 4-byte emoji) in every gap; type faults: into every operand / condition / annotation / applicand position of every type-directed program up to 5 [6] nodes an atom of a wrong class with a unique spelling is planted (plain and after non-ASCII text on the same line) and some diagnostic must mark exactly it; the diagnostic's listing must mark exactly the planted identifier / symbol (or the parentheses that enclose nothing else). evaluations = texts + sentences x layouts".to_owned(),
             assumptions: vec![
                 "a diagnostic for a parenthesised operand may cover the operand with or without the parentheses that enclose it and nothing else".to_owned(),
-                "type faults at every subterm position are planted by the typed-program sweeps (see C03/C05 evidence) using the same listing oracle".to_owned(),
+                "type faults are planted only where the context fixes the expected class (operands, conditions, annotations, applicands) and with uniquely spelled atoms, so the offending subexpression is known by construction".to_owned(),
                 "NO_COLOR rendering (overline row) is what is read back".to_owned(),
             ],
             evaluations: "evaluations",
